@@ -33,6 +33,37 @@ class VerifyService:
         self.certificate_library: CertificateLibrary = certificate_library
         self.sign_service: SignService | None = sign_service
 
+    _DURATION_SECONDS = {
+        "microseconds": 1e-6,
+        "milliseconds": 1e-3,
+        "seconds": 1,
+        "minutes": 60,
+        "hours": 3600,
+        "sixtyHours": 216000,
+        "years": 31556952,
+    }
+
+    @staticmethod
+    def _ticket_authorises_message(authorization_ticket, psid: int, generation_time: int) -> bool:
+        """
+        Check the message's ITS-AID against the ticket's appPermissions and its generation
+        time (Time64, microseconds) against the ticket's validityPeriod (Time32 start, Duration).
+        """
+        tbs = authorization_ticket.certificate["toBeSigned"]
+        app_permissions = tbs.get("appPermissions")
+        if app_permissions is not None and psid not in [
+            psid_ssp["psid"] for psid_ssp in app_permissions
+        ]:
+            return False
+        validity = tbs.get("validityPeriod")
+        if validity is not None:
+            start_us = validity["start"] * 1_000_000
+            unit, amount = validity["duration"]
+            end_us = start_us + amount * VerifyService._DURATION_SECONDS[unit] * 1_000_000
+            if not start_us <= generation_time <= end_us:
+                return False
+        return True
+
     def verify(self, request: SNVERIFYRequest) -> SNVERIFYConfirm:
         """
         Verify the signature of a message
@@ -167,6 +198,18 @@ class VerifyService:
                         )
             its_aid_bytes = psid.to_bytes(
                 (psid.bit_length() + 7) // 8 or 1, "big")
+            # The signing ticket must be authorised for the message: its appPermissions
+            # contain the ITS-AID and its validity period covers the generation time.
+            if not self._ticket_authorises_message(
+                authorization_ticket, psid, header_info["generationTime"]
+            ):
+                return SNVERIFYConfirm(
+                    report=ReportVerify.INVALID_CERTIFICATE,
+                    certificate_id=authorization_ticket.as_hashedid8(),
+                    its_aid=its_aid_bytes,
+                    its_aid_length=len(its_aid_bytes),
+                    permissions=b'',
+                )
             verification_key = authorization_ticket.certificate["toBeSigned"]["verifyKeyIndicator"][
                 1
             ]
